@@ -787,6 +787,11 @@ class TaskGroup(abc.TaskGroup):
 
             loop = get_running_loop()
             try:
+                if not self._tasks:
+                    # If there are no child tasks to wait on, run at least one checkpoint
+                    # anyway (new tasks may still be started during it)
+                    await AsyncIOBackend.cancel_shielded_checkpoint()
+
                 if self._tasks:
                     with CancelScope() as wait_scope:
                         while self._tasks:
@@ -810,10 +815,6 @@ class TaskGroup(abc.TaskGroup):
                                     exc_val = exc
 
                             self._on_completed_fut = None
-                else:
-                    # If there are no child tasks to wait on, run at least one checkpoint
-                    # anyway
-                    await AsyncIOBackend.cancel_shielded_checkpoint()
 
                 if self._exceptions:
                     # The exception that got us here should already have been
